@@ -1403,6 +1403,168 @@ def r6_interp_rows(ctx, rid):
         raise AnalysisError(f"{rid}: only {n} python-syntax interp_rows helpers found")
 
 
+# --------------------------------------------------------------------------------------------
+# R7 — the name registry of the input operators and the operator cache keyed by those names are emptied together
+# --------------------------------------------------------------------------------------------
+
+_SHRINKERS = {"clear", "pop", "popitem", "__delitem__"}
+
+
+def _input_name_registries(ctx, rid):
+    """Module-level containers of circuit.py that are handed to get_unique_label as the registry of names already taken."""
+    m = ctx.repo.get_module(REL)
+    out = set()
+    for f in ctx.repo.all_functions([REL]):
+        for c in walk_shallow(f.node):
+            if isinstance(c, ast.Call) and call_name(c) == "get_unique_label":
+                args = list(c.args) + [k.value for k in c.keywords]
+                for a in args[1:]:
+                    if isinstance(a, ast.Name) and a.id in m.assigns and not ctx.rd(f).is_local(a.id):
+                        out.add(a.id)
+    ctx.require(out, f"{rid}: no module-level name registry handed to get_unique_label in {REL} (anchor vanished)")
+    return out
+
+
+def _name_keyed_operator_caches(ctx, rid):
+    """(class, attribute names): class-level containers of the operator template class that its methods subscript through
+    self / the class (the memo of applied operators, keyed by operator name)."""
+    g = ctx.repo.get_func(REL, "create_input_node")
+    cls = None
+    for c in walk_shallow(g.node):
+        if isinstance(c, ast.Call) and any(k.arg == "equations" for k in c.keywords):
+            r = ctx.repo.resolve_expr(g.module, c.func)
+            if r is not None and hasattr(r, "methods"):
+                cls = r
+    ctx.require(cls is not None, f"{rid}: the operator template class instantiated by create_input_node cannot be resolved")
+    attrs = set()
+    for k in cls.mro:
+        for name, val in getattr(k, "attrs", {}).items():
+            if isinstance(val, ast.Dict) or (isinstance(val, ast.Call) and call_name(val) in ("dict", "OrderedDict")):
+                for meth in k.methods.values():
+                    for n in walk_shallow(meth.node):
+                        if isinstance(n, ast.Subscript) and isinstance(n.value, ast.Attribute) and n.value.attr == name:
+                            attrs.add(name)
+    ctx.require(attrs, f"{rid}: {cls.name} has no class-level cache that its methods subscript (anchor vanished)")
+    return cls, attrs
+
+
+def r7_registry_and_cache_emptied_together(ctx, rid):
+    """create_input_node makes the name of every input operator unique for the life of the process through a module-level registry
+    of names already handed out; OperatorTemplate.apply memoises applied operators - including their default values, i.e. the input
+    array and its time grid - under the operator's name.  Names may therefore be released (the registry emptied, shrunk or
+    re-bound) only where that cache is emptied as well: otherwise a later compilation re-creates an already used name, hits the
+    stale entry and integrates the array of an earlier call."""
+    from engine import effects as _effects
+    eff = ctx.effects
+    registries = _input_name_registries(ctx, rid)
+    cache_cls, cache_attrs = _name_keyed_operator_caches(ctx, rid)
+    cache_classes = {c.name for c in ctx.repo.subclasses(cache_cls)} | {cache_cls.name}
+
+    def is_cache_expr(f, e) -> bool:
+        if not (isinstance(e, ast.Attribute) and e.attr in cache_attrs):
+            return False
+        r = ctx.repo.resolve_expr(f.module, e.value)
+        if r is not None and getattr(r, "name", None) in cache_classes and hasattr(r, "methods"):
+            return True
+        try:
+            return any(c.name in cache_classes for c in ctx.cg.expr_classes(f, e.value))
+        except Exception:
+            return False
+
+    def direct_cache_clears(f):
+        out = []
+        for n in walk_shallow(f.node):
+            if isinstance(n, ast.Call) and isinstance(n.func, ast.Attribute) and n.func.attr == "clear" and is_cache_expr(f, n.func.value):
+                out.append(n)
+            elif isinstance(n, ast.Assign) and any(is_cache_expr(f, t) for t in n.targets) \
+                    and ((isinstance(n.value, ast.Dict) and not n.value.keys) or (isinstance(n.value, ast.Call) and call_name(n.value) == "dict"
+                                                                                  and not n.value.args and not n.value.keywords)):
+                out.append(n)
+        return out
+    funcs = ctx.repo.all_functions()
+    always_clears = set()          # functions that empty the cache on every path
+    for f in funcs:
+        cs = direct_cache_clears(f)
+        if cs:
+            cfg = ctx.cfg(f)
+            sts = [stmt_of(cfg, c) if not isinstance(c, ast.stmt) else c for c in cs]
+            if cfg.must_pass(cfg.ENTRY, lambda n: any(n is x for x in sts)) is None:
+                always_clears.add(f)
+
+    def cache_clear_stmts(f):
+        cfg = ctx.cfg(f)
+        out = [stmt_of(cfg, c) if not isinstance(c, ast.stmt) else c for c in direct_cache_clears(f)]
+        for c in walk_shallow(f.node):
+            if isinstance(c, ast.Call):
+                ts, how = ctx.cg.resolve_call(f, c)
+                if ts and how not in ("by-name",) and all(t in always_clears for t in ts):
+                    out.append(stmt_of(cfg, c))
+        return [x for x in out if x is not None]
+
+    def covered(f, st) -> bool:
+        cfg = ctx.cfg(f)
+        cl = cache_clear_stmts(f)
+        if not cl or st is None:
+            return False
+        if any(x is st or cfg.dominates(x, st) for x in cl):
+            return True
+        return cfg.must_pass(st, lambda n: any(n is x for x in cl)) is None
+
+    n_sites = 0
+    for f in funcs:
+        # cheap pre-filter: the registry can only be reached by its name (own module / import) or through the module object
+        if not any((isinstance(n, ast.Name) and n.id in registries) or (isinstance(n, ast.Attribute) and n.attr in registries)
+                   for n in walk_shallow(f.node)):
+            continue
+        an = _effects.analyse(eff, f)
+        shrinks = []          # (statement, description)
+        declared_global = {nm for n in walk_shallow(f.node) if isinstance(n, ast.Global) for nm in n.names}
+        for n in walk_shallow(f.node):
+            recv = None
+            if isinstance(n, ast.Call) and isinstance(n.func, ast.Attribute) and n.func.attr in _SHRINKERS:
+                recv, what = n.func.value, f"`{norm(n)}`"
+            elif isinstance(n, ast.Delete):
+                for t in n.targets:
+                    if isinstance(t, ast.Subscript):
+                        recv, what = t.value, f"`{norm(n)}`"
+            elif isinstance(n, (ast.Assign, ast.AnnAssign)) and f.module.rel == REL:
+                tg = n.targets if isinstance(n, ast.Assign) else [n.target]
+                for t in tg:
+                    if isinstance(t, ast.Name) and t.id in registries and t.id in declared_global:
+                        shrinks.append((n, f"`{norm(n)}` re-binds the registry"))
+            elif isinstance(n, ast.Assign):
+                for t in n.targets:
+                    if isinstance(t, ast.Attribute) and t.attr in registries:
+                        r = ctx.repo.resolve_expr(f.module, t.value)
+                        if r is not None and getattr(r, "rel", None) == REL:
+                            shrinks.append((n, f"`{norm(n)}` re-binds the registry"))
+            if recv is not None:
+                try:
+                    origins = an.origins(recv)
+                except Exception:
+                    origins = ()
+                if any(o[0] == "G" and o[1] == REL and o[2] in registries and o[3] == () for o in origins):
+                    shrinks.append((n, what + " releases names of the registry"))
+        for n, what in shrinks:
+            n_sites += 1
+            st = n if isinstance(n, ast.stmt) else stmt_of(ctx.cfg(f), n)
+            label = f"names released: {norm(n)}"
+            if covered(f, st):
+                ctx.ok(rid, f, n, f"{what}; the name-keyed operator cache {cache_cls.name}.{'/'.join(sorted(cache_attrs))} is emptied on the same path",
+                       label=label)
+                continue
+            sites = ctx.cg.call_sites_of(f)
+            if sites and all(covered(cf, stmt_of(ctx.cfg(cf), cc)) for cf, cc in sites):
+                ctx.ok(rid, f, n, f"{what}; every caller of {f.qualname} empties the operator cache on the same path", label=label)
+                continue
+            ctx.violation(rid, f, n, f"{what}, but {cache_cls.name}.{'/'.join(sorted(cache_attrs))} - which memoises applied operators and "
+                                     f"their default values (input array, time grid) under the operator NAME - is not emptied on this path: "
+                                     f"the next input operator gets a name that was used before, OperatorTemplate.apply returns the stale "
+                                     f"entry and the model is driven by the array of an earlier call", {"registry": sorted(registries)},
+                          label=label)
+    ctx.require(n_sites >= 1, f"{rid}: no place found where names of {sorted(registries)} are released (clear() no longer empties it?)")
+
+
 RULES = [
     ("C08-R1", r1_interp, 3),
     ("C08-R2", r2_column_to_node, 4),      # one merged record: target, source, source_idx, guard (6 with two records, as today)
@@ -1411,4 +1573,5 @@ RULES = [
     ("C08-R4", r4_update_template_forwards, 9),
     ("C08-R5", r5_empty_selection_reported, 1),
     ("C08-R6", r6_interp_rows, 3),
+    ("C08-R7", r7_registry_and_cache_emptied_together, 1),
 ]
